@@ -1799,6 +1799,18 @@ DLLIMPORT int cfg_parse(cfg_t *cfg, const char *filename)
 	fp = fopen(cfg->filename, "r");
 	if (!fp)
 		return CFG_FILE_ERROR;
+#if defined(HAVE_SYS_STAT_H) && defined(S_ISDIR)
+	{
+		struct stat st;
+
+		/* a directory can be opened but not read: the scanner would exit() */
+		if (fstat(fileno(fp), &st) == 0 && S_ISDIR(st.st_mode)) {
+			fclose(fp);
+			errno = EISDIR;
+			return CFG_FILE_ERROR;
+		}
+	}
+#endif
 
 	ret = cfg_parse_fp(cfg, fp);
 	fclose(fp);
